@@ -193,6 +193,10 @@ extern "C" int harness_main()
 	cfg.net.append(std::make_shared<queue>(tios, 0, duration(0), 0, "wire"));
 	address const sender = DIR == 0 ? CA : SA;
 	std::shared_ptr<dropper> drp;
+#ifdef NATTED
+	// the sender sits behind a NAT (C13: payload, order and progress are unaffected by it)
+	if (vp_choose(2) == 1) cfg.out[sender].append(std::make_shared<nat>(address(address_v4(0x63000001))));
+#endif
 	cfg.out[sender].append(std::make_shared<seg_probe>(false));
 #if LOSS == 1
 	drp = std::make_shared<dropper>(DROPS, 3);
@@ -251,7 +255,7 @@ extern "C" int harness_main()
 		if (moved == 2) { srv_moved = new tcp::socket(std::move(srv)); (DIR == 0 ? r.sock : w.sock) = srv_moved; }
 		(moved == 2 ? *srv_moved : srv).non_blocking(true);
 		if (moved == 2) { if (DIR == 1) write_more(w); else if (!late_reader) read_more(r); return; }
-		if (DIR == 1) write_more(w); else read_more(r);
+		if (DIR == 1) write_more(w); else if (!late_reader) read_more(r);
 	});
 	cli.open(tcp::v4(), ec);
 	cli.async_connect(tcp::endpoint(SA, 7000), [&](error_code const& e)
@@ -277,7 +281,12 @@ extern "C" int harness_main()
 	bool const lossless = LOSS == 0 || (drp && drp->dropped == 0);
 #if PROGRESS
 	// history class of this path: was any payload segment tail-dropped by a queue?
+#if LOSS == 1
+	// history class: the exact fault pattern the hop inflicted (base-4 digits: 1 pass, 2 drop, 3 hold per faulted segment)
+	vp_scenario(100 + drp->pattern);
+#else
 	if (g_segments_after < g_segments) vp_scenario(1);
+#endif
 	// C06: both sockets open (or writer closed after completing): every byte accepted by a write arrives,
 	// no pending read with data queued, no blocked writer with nothing in flight, nothing waits unsent
 	vp_assert(st.written == st.len || st.write_errors > 0, 30);
@@ -319,6 +328,9 @@ extern "C" int harness_main()
 		vp_reach(4);
 	}
 #endif
+	// tear down: the reader first (so that it does not observe the teardown of the writer as an end-of-file)
+	r.stop = true;
+	r.sock->close(ec); w.sock->close(ec);
 	cli.close(ec); srv.close(ec); acc.close(ec);
 	if (cli_moved) cli_moved->close(ec);
 	if (srv_moved) srv_moved->close(ec);
